@@ -38,7 +38,7 @@ Proof.
 Qed.
 
 Theorem decode_encode_HP guard c comp ph :
-  guard = cur_guard \/ guard = fix_guard ->
+  guard = orig_guard \/ guard = fix_guard ->
   gt c = Some [Some 0; Some 1]%nat ->
   ph = [0; 1]%nat \/ ph = [1; 0]%nat ->
   decode_HP guard (set_HP c comp ph) = Ok (Some (mkPhase (Some (comp + 1)) (map Some ph) (pq c))).
@@ -50,7 +50,7 @@ Qed.
 
 (* the current encoder, by contrast, on a descending GT: the HP statement decodes to the flipped phase *)
 Theorem decode_encode_HP_descending guard c comp :
-  guard = cur_guard \/ guard = fix_guard ->
+  guard = orig_guard \/ guard = fix_guard ->
   gt c = Some [Some 1; Some 0]%nat ->
   decode_HP guard (set_HP c comp [0; 1]%nat) = Ok (Some (mkPhase (Some (comp + 1)) [Some 1; Some 0]%nat (pq c))).
 Proof.
